@@ -6,7 +6,6 @@ package main
 // working tree* and the go/ssa form of every library function body. Nothing is executed.
 
 import (
-	_ "embed"
 	"fmt"
 	"go/token"
 	"go/types"
@@ -129,6 +128,7 @@ func LoadWith(dir string, control bool) *Prog {
 	prog.Build()
 	p.SSA = prog
 	p.indexFuncs()
+	p.align()
 	p.T = buildTables(p)
 	return p
 }
@@ -178,34 +178,6 @@ func (p *Prog) indexFuncs() {
 		}
 	}
 	sort.Slice(p.Funcs, func(i, j int) bool { return p.FuncKey(p.Funcs[i]) < p.FuncKey(p.Funcs[j]) })
-}
-
-//go:embed symbols_pinned.txt
-var pinnedSymbols string
-
-var pinnedSet map[string]bool
-
-// KnownFunc reports whether fn is a named function of the pinned tree (symbols_pinned.txt). Functions that are not —
-// helpers introduced by a later change — have no frozen role in any rule table, so the path engine expands them in place.
-func (p *Prog) KnownFunc(fn *ssa.Function) bool {
-	if p.Control {
-		return true
-	}
-	if pinnedSet == nil {
-		pinnedSet = map[string]bool{}
-		for _, l := range strings.Split(pinnedSymbols, "\n") {
-			if l = strings.TrimSpace(l); l != "" {
-				pinnedSet[l] = true
-			}
-		}
-	}
-	if o := fn.Origin(); o != nil {
-		fn = o
-	}
-	for fn.Parent() != nil {
-		fn = fn.Parent()
-	}
-	return pinnedSet[p.FuncKey(fn)]
 }
 
 // IsLib reports whether fn (after Origin resolution) is declared in a library package.
@@ -261,7 +233,10 @@ func (p *Prog) RelPkg(path string) string {
 
 // FuncKey is the stable construct name of a function: "lists/arraylist.(*List).Add",
 // "containers.GetSortedValues", "maps/linkedhashmap.(*Map).FromJSON$1".
-func (p *Prog) FuncKey(fn *ssa.Function) string {
+func (p *Prog) FuncKey(fn *ssa.Function) string { return p.funcKey(fn, true) }
+
+// funcKey: alias = report the pinned name of a renamed unexported function (align.go).
+func (p *Prog) funcKey(fn *ssa.Function, alias bool) string {
 	if o := fn.Origin(); o != nil {
 		fn = o
 	}
@@ -269,9 +244,13 @@ func (p *Prog) FuncKey(fn *ssa.Function) string {
 		// anonymous function: parent key + $n
 		name := fn.Name()
 		if i := strings.LastIndexByte(name, '$'); i >= 0 {
-			return p.FuncKey(fn.Parent()) + name[i:]
+			return p.funcKey(fn.Parent(), alias) + name[i:]
 		}
-		return p.FuncKey(fn.Parent()) + "$" + name
+		return p.funcKey(fn.Parent(), alias) + "$" + name
+	}
+	fname := fn.Name()
+	if alias {
+		fname = fnName(fn)
 	}
 	pkg := ""
 	if fn.Pkg != nil {
@@ -295,11 +274,11 @@ func (p *Prog) FuncKey(fn *ssa.Function) string {
 			tn = n.Obj().Name()
 		}
 		if ptr != "" {
-			return fmt.Sprintf("%s.(*%s).%s", rel, tn, fn.Name())
+			return fmt.Sprintf("%s.(*%s).%s", rel, tn, fname)
 		}
-		return fmt.Sprintf("%s.%s.%s", rel, tn, fn.Name())
+		return fmt.Sprintf("%s.%s.%s", rel, tn, fname)
 	}
-	return rel + "." + fn.Name()
+	return rel + "." + fname
 }
 
 // Pos renders a position relative to the repository root.
@@ -352,7 +331,7 @@ func (p *Prog) InstrPos(in ssa.Instruction) string {
 func (p *Prog) Method(named *types.Named, name string) *ssa.Function {
 	named = named.Origin()
 	for i := 0; i < named.NumMethods(); i++ {
-		if m := named.Method(i); m.Name() == name {
+		if m := named.Method(i); m.Name() == name || fnName(p.byObj[m]) == name {
 			return p.byObj[m]
 		}
 	}
